@@ -39,6 +39,11 @@ const (
 	KWriteFile                 // create/truncate + write whole Data
 )
 
+// KRead is never journalled: it only describes a read (Path, Off, Flags=length)
+// handed to an optional read gate (world C: the interleaving scheduler also decides
+// when a reader of a data file proceeds).  Without a read gate nothing changes.
+const KRead Kind = 100
+
 func (k Kind) String() string {
 	switch k {
 	case KCreate:
@@ -59,6 +64,8 @@ func (k Kind) String() string {
 		return "truncate"
 	case KWriteFile:
 		return "writefile"
+	case KRead:
+		return "read"
 	}
 	return "?"
 }
@@ -145,6 +152,7 @@ type Disk struct {
 	tag       int
 	faults    []*Fault
 	gate      Gate
+	readGate  Gate // optional; see SetReadGate
 	FencedOps int64
 	keepData  bool
 	observers []func(e *Entry)
@@ -229,6 +237,46 @@ func (d *Disk) SetGate(g Gate) {
 	d.gate = g
 	d.mu.Unlock()
 }
+
+// SetReadGate installs an optional gate consulted before every Read/ReadAt of a
+// file of this disk that is opened *after* the call (files are wrapped at open
+// time only while a read gate is set).  The gate may block.  Reads are never
+// journalled and a nil gate (the default) leaves every existing code path untouched.
+func (d *Disk) SetReadGate(g Gate) {
+	d.mu.Lock()
+	d.readGate = g
+	d.mu.Unlock()
+}
+
+func (d *Disk) getReadGate() Gate {
+	d.mu.Lock()
+	defer d.mu.Unlock()
+	return d.readGate
+}
+
+func (d *Disk) beforeRead(rel string, off int64, n int) {
+	if g := d.getReadGate(); g != nil {
+		g(d, &Entry{Kind: KRead, Path: rel, Off: off, Flags: n})
+	}
+}
+
+// rfile wraps a file opened read-only on a disk that has a read gate.
+type rfile struct {
+	fileops.File
+	d   *Disk
+	rel string
+}
+
+func (f *rfile) ReadAt(b []byte, off int64) (int, error) {
+	f.d.beforeRead(f.rel, off, len(b))
+	return f.File.ReadAt(b, off)
+}
+
+func (f *rfile) Read(b []byte) (int, error) {
+	f.d.beforeRead(f.rel, -1, len(b))
+	return f.File.Read(b)
+}
+
 func (d *Disk) Observe(fn func(e *Entry)) {
 	d.mu.Lock()
 	d.observers = append(d.observers, fn)
@@ -592,6 +640,16 @@ func (f *file) Write(b []byte) (int, error) {
 	return n, err
 }
 
+func (f *file) ReadAt(b []byte, off int64) (int, error) {
+	f.d.beforeRead(f.rel, off, len(b))
+	return f.File.ReadAt(b, off)
+}
+
+func (f *file) Read(b []byte) (int, error) {
+	f.d.beforeRead(f.rel, -1, len(b))
+	return f.File.Read(b)
+}
+
 func (f *file) Truncate(size int64) error {
 	e := &Entry{Kind: KTruncate, Path: f.rel, Off: size}
 	if _, err := f.d.begin(e); err != nil {
@@ -643,7 +701,14 @@ func (s *FS) wrap(inner fileops.File, d *Disk, rel string, flag int) fileops.Fil
 }
 
 func (s *FS) Open(name string, opt ...fileops.FSOption) (fileops.File, error) {
-	return s.inner.Open(name, opt...)
+	f, err := s.inner.Open(name, opt...)
+	if err != nil {
+		return f, err
+	}
+	if d, rel := s.diskOf(name); d != nil && d.getReadGate() != nil {
+		return &rfile{File: f, d: d, rel: rel}, nil
+	}
+	return f, nil
 }
 
 func (s *FS) OpenFile(name string, flag int, perm os.FileMode, opt ...fileops.FSOption) (fileops.File, error) {
@@ -675,6 +740,9 @@ func (s *FS) OpenFile(name string, flag int, perm os.FileMode, opt ...fileops.FS
 		d.commit(e)
 	}
 	if flag&(os.O_WRONLY|os.O_RDWR) == 0 {
+		if d.getReadGate() != nil {
+			return &rfile{File: f, d: d, rel: rel}, nil
+		}
 		return f, nil
 	}
 	return s.wrap(f, d, rel, flag), nil
